@@ -226,3 +226,11 @@ def race_loser_teardown_panics_during_subscription(case, mismatch):
 
 
 PREDICATES['race_loser_teardown_panics_during_subscription'] = race_loser_teardown_panics_during_subscription
+
+
+def open_attempt_below_take(case, mismatch):
+    """the case is the never-ending attempt below a downstream Take(1) (Resub.tla NeverEnding)"""
+    return bool(case.get('open'))
+
+
+PREDICATES['open_attempt_below_take'] = open_attempt_below_take
